@@ -442,6 +442,29 @@ CLAIMS["C15"]["technique"] += "; relational abstract interpretation with ghost a
 CLAIMS["C14"]["technique"] += "; constant propagation of returned status variables; file-scope bookkeeping dataflow"
 CLAIMS["C05"]["technique"] += "; static-initialiser evaluation (address constants)"
 
+ROUND7 = {
+ "C01": "A taken accelerated case of SHA256_Transform ends the function (one transform per block).",
+ "C02": "A key object is used and freed by the branch that made it (the accelerated branch returns without running the portable code).",
+ "C03": "A taken accelerated case of SHA256_Transform ends the function; no complement mask is narrower than the value it masks.",
+ "C04": "A refused registration has not destroyed the one that existed; the table only grows; a successful poll restarts the scan; tv_usec is the fractional part times a million.",
+ "C05": "A failed registration, cancellation or reset has not destroyed a registration that existed before the call; a successful poll restarts the scan at the last entry.",
+ "C06": "A refused registration is not cancelled; the caller's callback is never invoked from inside the call that creates the request; a live handle is cancelled before it is forgotten.",
+ "C07": "Space handed out by a reservation is inside the buffer it points into; a wait fails only when something it called failed.",
+ "C08": "The caller's callback is never invoked from inside http_request() or network_connect(); reservations are inside their buffers.",
+ "C09": "A handler that waits for n bytes gives a verdict on the window's contents only once they are there; a request larger than the writer's default buffer fits its own.",
+ "C12": "export reads the buffer's address after the last call that can move the buffer.",
+ "C13": "swap exchanges the two slots and tells each element the slot it is now in (evaluated over abstract cells); the sift after a swap continues from the element's new position.",
+ "C14": "A pointer or member known to be NULL is not handed to a function that dereferences it without looking (a destructor applied to a half-constructed object).",
+ "C15": "Character k of a command-line word is read only where character k - 1 is known not to be NUL; humansize_parse's accumulation cannot wrap.",
+ "C16": "An overflow rejection is not overwritten before the state is tested.",
+ "C17": "The port is parsed in base 10; skip_number passes exactly the characters of a JSON number.",
+ "C18": "The slot count searchopt scans is the count setrange has just cleared, on every path.",
+}
+for _k, _v in ROUND7.items():
+    CLAIMS[_k]["text"] += " " + _v
+for _k in CLAIMS:
+    CLAIMS[_k]["text"] += " Differentially: a function that failed only when a callee failed still does."
+
 NOT_APPLICABLE = {
 }
 
